@@ -720,8 +720,9 @@ Proof.
   destruct o as [cap | xs | h n | hs | h f | sid x | sid | h ch | h | k ch]; simpl in H.
   - (* OPipe *)
     inversion H; subst; clear H.
-    eapply (kinv_constructor_gen G _ _ (st_handles G) _ [] []); eauto.
+    apply (kinv_constructor_gen G _ _ (st_handles G) _ [] [] HK).
     + intros r. apply rclosed_add_stream. reflexivity.
+    + reflexivity.
     + apply identity_nth.
     + simpl. rewrite app_nil_r. reflexivity.
     + rewrite app_nil_r. reflexivity.
@@ -730,7 +731,9 @@ Proof.
     + intros F r [].
   - (* OArray *)
     inversion H; subst; clear H.
-    eapply (kinv_constructor_gen G _ _ (st_handles G) _ [] []); eauto.
+    apply (kinv_constructor_gen G _ _ (st_handles G) _ [] [] HK).
+    + auto.
+    + reflexivity.
     + apply identity_nth.
     + rewrite app_nil_r. reflexivity.
     + rewrite app_nil_r. reflexivity.
@@ -743,41 +746,32 @@ Proof.
     apply Nat.ltb_ge in En. simpl in Hpre. specialize (Hpre En).
     assert (Hmv : forall r, In r (refs t) -> moved G r).
     { intros r Hr. left. exists h, t. auto. }
+    assert (Hpar : forall t0, refs t0 = refs t ->
+      kinv (mkState (add_parent (st_store G) (new_parent t0 n)) (st_fwds G)
+             (st_handles (consume G h) ++
+              map (fun i => mkH (RChild (List.length (parents (st_store G))) i) true false [] false) (seq 0 n)))).
+    { intros t0 Ht0.
+      apply (kinv_constructor_gen G _ _ (st_handles (consume G h)) _ [new_parent t0 n] [] HK).
+      + apply rclosed_add_parent.
+      + apply consume_handles_len.
+      + apply consume_nth.
+      + reflexivity.
+      + rewrite app_nil_r. reflexivity.
+      + intros N r HN Hr. apply in_map_iff in HN. destruct HN as (i0 & <- & _). destruct Hr as [<-|[]].
+        right. apply not_rclosed_fresh_parent. lia.
+      + intros P r [<-|[]] Hr. apply Hmv. simpl in Hr. rewrite Ht0 in Hr. exact Hr.
+      + intros F r []. }
     destruct t as [d rest | s0 | sts ch | f src cin cout | p i]; inversion H; subst; clear H;
-      rewrite ?consume_store, ?consume_fwds.
-    + eapply (kinv_constructor_gen G _ _ (st_handles (consume G h)) _ [] []); eauto.
-      * apply consume_handles_len. * apply consume_nth.
-      * rewrite app_nil_r. reflexivity. * rewrite app_nil_r. reflexivity.
-      * intros N r HN Hr. apply repeat_spec in HN. subst N. inversion Hr.
-      * intros P r []. * intros F r [].
-    + eapply (kinv_constructor_gen G _ _ (st_handles (consume G h)) _ [new_parent (RStr s0) n] []); eauto.
-      * apply rclosed_add_parent. * apply consume_handles_len. * apply consume_nth.
-      * rewrite app_nil_r. reflexivity.
-      * intros N r HN Hr. apply in_map_iff in HN. destruct HN as (i0 & <- & _). destruct Hr as [<-|[]].
-        right. apply not_rclosed_fresh_parent. lia.
-      * intros P r [<-|[]] Hr. apply Hmv. exact Hr.
-      * intros F r [].
-    + eapply (kinv_constructor_gen G _ _ (st_handles (consume G h)) _ [new_parent (RMul sts ch) n] []); eauto.
-      * apply rclosed_add_parent. * apply consume_handles_len. * apply consume_nth.
-      * rewrite app_nil_r. reflexivity.
-      * intros N r HN Hr. apply in_map_iff in HN. destruct HN as (i0 & <- & _). destruct Hr as [<-|[]].
-        right. apply not_rclosed_fresh_parent. lia.
-      * intros P r [<-|[]] Hr. apply Hmv. exact Hr.
-      * intros F r [].
-    + eapply (kinv_constructor_gen G _ _ (st_handles (consume G h)) _ [new_parent (RConv f src cin cout) n] []); eauto.
-      * apply rclosed_add_parent. * apply consume_handles_len. * apply consume_nth.
-      * rewrite app_nil_r. reflexivity.
-      * intros N r HN Hr. apply in_map_iff in HN. destruct HN as (i0 & <- & _). destruct Hr as [<-|[]].
-        right. apply not_rclosed_fresh_parent. lia.
-      * intros P r [<-|[]] Hr. apply Hmv. exact Hr.
-      * intros F r [].
-    + eapply (kinv_constructor_gen G _ _ (st_handles (consume G h)) _ [new_parent (RChild p i) n] []); eauto.
-      * apply rclosed_add_parent. * apply consume_handles_len. * apply consume_nth.
-      * rewrite app_nil_r. reflexivity.
-      * intros N r HN Hr. apply in_map_iff in HN. destruct HN as (i0 & <- & _). destruct Hr as [<-|[]].
-        right. apply not_rclosed_fresh_parent. lia.
-      * intros P r [<-|[]] Hr. apply Hmv. exact Hr.
-      * intros F r [].
+      rewrite ?consume_store, ?consume_fwds; try (apply Hpar; reflexivity).
+    apply (kinv_constructor_gen G _ _ (st_handles (consume G h)) _ [] [] HK).
+    + auto.
+    + apply consume_handles_len.
+    + apply consume_nth.
+    + rewrite app_nil_r. reflexivity.
+    + rewrite app_nil_r. reflexivity.
+    + intros N r HN Hr. apply repeat_spec in HN. subst N. inversion Hr.
+    + intros P r [].
+    + intros F r [].
   - (* OMerge *)
     destruct hs as [|h0 [|h1 hs']]; [inversion H; subst; auto| |].
     { destruct (live_rd G h0); inversion H; subst; auto. }
@@ -801,36 +795,43 @@ Proof.
     { intros F r HF Hr. rewrite Forall_forall in Hnf. destruct (Hnf F HF) as [Hin _]. eapply Hmv; eauto. }
     assert (Hlen1 : List.length (streams (st_store G)) <= List.length (streams st1)).
     { rewrite S1, app_length. lia. }
+    assert (Hgen : forall st2 rdnew,
+       (forall r, rclosed st2 r -> rclosed st1 r) -> parents st2 = parents st1 ->
+       (forall r, In r (refs rdnew) -> moved G r) ->
+       kinv (mkState st2 fw1 (st_handles (consume_all G (h0 :: h1 :: hs')) ++ [mkH rdnew true false [] false]))).
+    { intros st2 rdnew Hr2 Hp2 Hnew.
+      apply (kinv_constructor_gen G st2 fw1 _ _ [] nf HK).
+      + intros r Hr. apply Hr1. apply Hr2. exact Hr.
+      + apply consume_all_handles_len.
+      + apply consume_all_nth.
+      + rewrite app_nil_r. congruence.
+      + exact Efw.
+      + intros N r [<-|[]] Hr. apply Hnew. exact Hr.
+      + intros P r [].
+      + exact HF1. }
     destruct ss as [|s0 ss']; destruct arr as [|a0 arr']; inversion H; subst b G'; clear H.
-    + eapply (kinv_constructor_gen G st1 fw1 _ _ [] nf); eauto.
-      * apply consume_all_handles_len. * apply consume_all_nth. * rewrite app_nil_r. auto.
-      * intros N r [<-|[]] Hr. inversion Hr.
-      * intros P r [].
-    + eapply (kinv_constructor_gen G st1 fw1 _ _ [] nf); eauto.
-      * apply consume_all_handles_len. * apply consume_all_nth. * rewrite app_nil_r. auto.
-      * intros N r [<-|[]] Hr. inversion Hr.
-      * intros P r [].
-    + eapply (kinv_constructor_gen G st1 fw1 _ _ [] nf); eauto.
-      * apply consume_all_handles_len. * apply consume_all_nth. * rewrite app_nil_r. auto.
-      * intros N r [<-|[]] Hr. unfold hrefs in Hr. cbn [h_live h_rd refs] in Hr.
-        apply in_map_iff in Hr. destruct Hr as (s & <- & Hs). apply Hss'. exact Hs.
-      * intros P r [].
-    + eapply (kinv_constructor_gen G (add_stream st1 (array_stream (a0 :: arr'))) fw1 _ _ [] nf); eauto.
-      * intros r Hr. apply Hr1. eapply rclosed_add_stream; eauto. reflexivity.
-      * apply consume_all_handles_len. * apply consume_all_nth. * simpl. rewrite app_nil_r. auto.
-      * intros N r [<-|[]] Hr. unfold hrefs in Hr. cbn [h_live h_rd refs] in Hr.
+    + apply Hgen; auto. intros r [].
+    + apply Hgen; auto. intros r [].
+    + apply Hgen; auto. intros r Hr. cbn [refs] in Hr.
+      apply in_map_iff in Hr. destruct Hr as (s & <- & Hs). apply Hss'. exact Hs.
+    + apply Hgen; auto.
+      * intros r Hr. eapply rclosed_add_stream; eauto. reflexivity.
+      * intros r Hr. cbn [refs] in Hr.
         apply in_map_iff in Hr. destruct Hr as (s & <- & Hs). apply in_app_or in Hs. destruct Hs as [Hs|[<-|[]]].
         -- apply Hss'. exact Hs.
         -- right. apply not_rclosed_fresh_stream. exact Hlen1.
-      * intros P r [].
   - (* OConv *)
     destruct (live_rd G h) as [t|] eqn:El; [|inversion H; subst; auto].
     inversion H; subst; clear H. rewrite consume_store, consume_fwds. simpl in Hpre.
-    eapply (kinv_constructor_gen G _ _ (st_handles (consume G h)) _ [] []); eauto.
-    + apply consume_handles_len. + apply consume_nth.
-    + rewrite app_nil_r. reflexivity. + rewrite app_nil_r. reflexivity.
+    apply (kinv_constructor_gen G _ _ (st_handles (consume G h)) _ [] [] HK).
+    + auto.
+    + apply consume_handles_len.
+    + apply consume_nth.
+    + rewrite app_nil_r. reflexivity.
+    + rewrite app_nil_r. reflexivity.
     + intros N r [<-|[]] Hr. left. exists h, t. auto.
-    + intros P r []. + intros F r [].
+    + intros P r [].
+    + intros F r [].
   - (* OSend *)
     destruct (nth_error (streams (st_store G)) sid) as [s|] eqn:Es; [|inversion H; subst; auto].
     destruct (negb (s_user s)); [inversion H; subst; auto|].
